@@ -5,7 +5,7 @@ EXTENDS PEPit, IOUtils
 Traces == ndJsonDeserialize(IOEnv.TRACE_FILE)
 VARIABLES tid, l, bad
 T == Traces[tid]
-tvars == <<tid, l, bad, reg, funs, npts, metrics, pcons, plmis, parts, solves, hist>>
+tvars == <<tid, l, bad, reg, funs, npts, metrics, pcons, plmis, parts, ncomp, fcons, solves, hist>>
 Act(a) == CASE a.a = "pep" -> NewPEP
             [] a.a = "declare" -> Declare(a.c)
             [] a.a = "point" -> InitPoint
@@ -17,6 +17,9 @@ Act(a) == CASE a.a = "pep" -> NewPEP
             [] a.a = "partition" -> Partition(a.k)
             [] a.a = "block" -> Block(a.k)
             [] a.a = "solve" -> Solve
+            [] a.a = "compose" -> Compose(a.f, a.k)
+            [] a.a = "fcondition" -> FunCondition(a.f)
+            [] a.a = "prox" -> Prox(a.f, a.k)
 TInit == tid \in 1..Len(Traces) /\ l = 1 /\ bad = {} /\ Init
 Names == <<"pt", "ex", "fn", "nfun", "co", "psd", "bp", "pep">>
 TStep == /\ l <= Len(T.h)
